@@ -19,7 +19,8 @@ LEVEL = "exploration"
 RULE = ("seeded random relational programs over t1,t2,t3(id,a,b,c): 1-3 sources (plain/aliased tables, subquery in FROM), inner/left/"
         "cross joins, projections (arithmetic with negative literals and unary minus, CASE, scalar functions, aggregates with DISTINCT, "
         "window functions), WHERE (comparisons, AND/OR/NOT, IN list/subquery, BETWEEN, IS NULL, LIKE), GROUP BY/HAVING, DISTINCT, "
-        "ORDER BY, LIMIT/OFFSET, unwrapped set operations, INSERT (values/select/replace), UPDATE (incl. UPDATE..FROM), DELETE, "
+        "ORDER BY, LIMIT/OFFSET, set operations built with the SQLite builder's defaults, correlated subqueries with the outer column "
+        "on either side, window keys that carry aliases of their own, INSERT (values/select/replace), UPDATE (incl. UPDATE..FROM), DELETE, "
         "upsert; nesting depth <= 4; plus a fixed list of hand-written programs for each clause. non-trivial = at least 3 clauses or "
         "one nested query; distinct = canonical program")
 ASSUMPTIONS = [
@@ -160,10 +161,18 @@ class G:
     def select(self, depth, single=False, plain_cols=False, allow_limit=True):
         r = self.rnd
         saved_used, self._used = getattr(self, "_used", set()), set()
+        level = getattr(self, "_level", 0)
+        self._level = level + 1
         try:
-            return self._select(depth, single, plain_cols, allow_limit)
+            q = self._select(depth, single, plain_cols, allow_limit)
         finally:
             self._used = saved_used
+            self._level = level
+        if level > 0 and (q["limit"] is not None or q["offset"] is not None) and not q.get("total"):
+            # a nested LIMIT without a total order lets the engine pick different rows under different plans: not judged at the
+            # top level, and not generated below it
+            q["limit"] = q["offset"] = None
+        return q
 
     def _select(self, depth, single=False, plain_cols=False, allow_limit=True):
         r = self.rnd
